@@ -234,10 +234,11 @@ def insertion_case(ctx, language, info, ins, name, cls):
     new_text, spans, added_before = apply_insertions(info, ins)
     case = {"language": language, "text": info.text, "insertions": [[a, k, p] for a, k, p in ins]}
     base = info.measurements()
-    if any(sl <= a < el or (k == "trail" and sl <= a <= el) for a, k, p in ins for _, (sl, _), (el, _), _ in base):
-        ctx.count("cases.insertion_inside_function")
-        ctx.distinct([language, new_text])
+    before = ctx.evaluations
     verdict = judge_pair(ctx, language, info, new_text, spans, added_before, case, cls)
+    if ctx.evaluations > before and any(sl <= a < el or (k == "trail" and sl <= a <= el) for a, k, p in ins for _, (sl, _), (el, _), _ in base):
+        ctx.count("cases.insertion_inside_function")  # judged cases only
+        ctx.distinct([language, new_text])
     if verdict and len(ctx.samples) < 3:
         ctx.sample({"language": language, "file": name, "insertions": [[a, k, p] for a, k, p in ins], "functions_in_file": len(base),
                     "relation": "held: same names/lengths/columns, lines shifted by the lines inserted above"})
